@@ -689,20 +689,73 @@ def verifies(vk, der, digest):
         return False
 
 
+# ----------------------------------------------------------------------------------------------
+# invocation shapes (spec/AppImage.tla: setup.dirs, Forms)
+# ----------------------------------------------------------------------------------------------
+DEFAULT_FORM = {"addr": "rel", "cwd": "imgdir", "pub": "rel"}
+
+
+def image_relpaths(dirs, n):
+    """where the n image files of a session live, relative to its root"""
+    out = {}
+    for i in range(1, n + 1):
+        if dirs == "samename":
+            out[i] = os.path.join("src", "p%d" % i, "bin", "app.hex")
+        elif dirs == "mixed" and i == 1:
+            out[i] = os.path.join("src", "ui", "bin", "app.hex")
+        elif dirs == "mixed" and i == 2:
+            out[i] = os.path.join("src", "signer", "bin", "app.hex")
+        elif dirs == "blanks":
+            out[i] = os.path.join("my apps", "firmware %d \u00f1\u00e9 v2.hex" % i)
+        else:
+            out[i] = "app%d.hex" % i
+    return out
+
+
+class Invocation:
+    """One way of naming the same files on a command line."""
+
+    def __init__(self, root, form):
+        self.root = root
+        self.form = dict(DEFAULT_FORM, **(form or {}))
+        self.cwd = root if self.form["cwd"] == "imgdir" else os.path.join(root, "wd", "sub")
+        os.makedirs(self.cwd, exist_ok=True)
+
+    def img_arg(self, rel, pos=0):
+        addr = self.form["addr"]
+        if addr == "mixed":
+            addr = "abs" if pos % 2 else "rel"
+        absolute = os.path.join(self.root, rel)
+        if addr == "abs":
+            return absolute
+        r = os.path.relpath(absolute, self.cwd)
+        return ("." + os.sep + r) if addr == "dotslash" else r
+
+    def out_file(self, name):
+        """(absolute path of the output file, the argument naming it)"""
+        loc = self.form["pub"]
+        if loc == "otherdir":
+            absf = os.path.join(self.root, "elsewhere", "out dir", name)
+        else:
+            absf = os.path.join(self.root, name)
+        os.makedirs(os.path.dirname(absf), exist_ok=True)
+        return absf, (absf if loc == "abs" else os.path.relpath(absf, self.cwd))
+
+
 class Session:
     """A working directory with image files; repeated signonetime runs in it."""
 
-    def __init__(self, root, layouts, contents, rng):
+    def __init__(self, root, layouts, contents, rng, dirs="flat"):
         install_boundary()
         self.root = root
         os.makedirs(os.path.join(root, "keys"), exist_ok=True)
         self.layouts = layouts                   # image id (1-based) -> Layout
         self.contents = list(contents)           # image id -> content class
-        self.img_paths, self.img_bytes = {}, {}
+        self.img_paths, self.img_bytes = image_relpaths(dirs, len(layouts)), {}
         for i, lay in enumerate(layouts, 1):
-            name = "app%d.hex" % i
+            name = self.img_paths[i]
+            os.makedirs(os.path.dirname(os.path.join(root, name)), exist_ok=True)
             write_hex(lay, os.path.join(root, name))
-            self.img_paths[i] = name
             with open(os.path.join(root, name), "rb") as f:
                 self.img_bytes[i] = f.read()
         ncls = max(self.contents)
@@ -720,7 +773,7 @@ class Session:
 
     PUB_NAMES = {1: "pubkey.txt", 2: os.path.join("keys", "onetime.pub")}
 
-    def _run_child(self, argv):
+    def _run_child(self, argv, cwd=None):
         """The same run in a fresh interpreter through the script's own `__main__` entry; the child
         installs the same recorders and reports the generated scalars / opened paths through a side
         file outside the working directory (removed at once)."""
@@ -732,10 +785,12 @@ class Session:
         script = os.path.join(env.MIDDLEWARE, "signonetime.py")
         code = ("import sys; sys.path.insert(0, %r); from harness import appimage as a; a.child_main()"
                 % env.VERIF)
-        e = dict(os.environ, PYTHONDONTWRITEBYTECODE="1", PYTHONHASHSEED="0")
+        e = dict(os.environ, PYTHONDONTWRITEBYTECODE="1", PYTHONHASHSEED="0", PYTHONIOENCODING="utf-8",
+                 PYTHONUTF8="1")
         try:
-            p = subprocess.run([sys.executable, "-c", code, rec, script] + argv[1:], cwd=self.root, env=e,
-                               stdout=subprocess.PIPE, stderr=subprocess.PIPE, text=True, timeout=120)
+            p = subprocess.run([sys.executable, "-c", code, rec, script] + argv[1:], cwd=cwd or self.root,
+                               env=e, stdout=subprocess.PIPE, stderr=subprocess.PIPE, text=True,
+                               encoding="utf-8", errors="replace", timeout=120)
             with open(rec) as f:
                 data = json.load(f)
         finally:
@@ -744,23 +799,25 @@ class Session:
             REG.record(ecdsa.SigningKey.from_string(bytes.fromhex(hx), curve=ecdsa.SECP256k1))
         return p.returncode, data.get("exc"), p.stdout, p.stderr, data["opened"]
 
-    def run(self, imgs, pubn, relative=True, spaces=False, child=False):
+    def run(self, imgs, pubn, relative=True, spaces=False, child=False, form=None):
         root = self.root
-        pub_rel = self.PUB_NAMES[pubn]
-
-        def arg(rel):
-            return rel if relative else os.path.join(root, rel)
+        if form is None:
+            form = {"addr": "rel" if relative else "abs", "cwd": "imgdir", "pub": "rel" if relative else "abs"}
+        inv = Invocation(root, form)
+        pub_abs, pub_arg = inv.out_file(self.PUB_NAMES[pubn])
+        pub_id = pubn + (10 if inv.form["pub"] == "otherdir" else 0)
+        img_args = [inv.img_arg(self.img_paths[i], k) for k, i in enumerate(imgs)]
         sep = ", " if spaces else ","
-        argv = ["signonetime.py", "-a", sep.join(arg(self.img_paths[i]) for i in imgs), "-p", arg(pub_rel)]
+        argv = ["signonetime.py", "-a", sep.join(img_args), "-p", pub_arg]
         import signonetime
         g0 = len(REG.log)
         REG.active = True
         hins = []
         try:
             if child:
-                code, exc, out, err, opened = self._run_child(argv)
+                code, exc, out, err, opened = self._run_child(argv, inv.cwd)
             else:
-                with Patched(argv, root) as p:
+                with Patched(argv, inv.cwd) as p:
                     code, exc = _call_main(signonetime)
                 out, err, opened = p.out.getvalue(), p.err.getvalue(), p.opened
                 hins = [bytes(x) for x in p.sha.inputs]
@@ -779,8 +836,10 @@ class Session:
             if q not in paths and os.path.isfile(q):
                 paths.append(q)
         paths.sort()
-        pub_abs = os.path.join(root, pub_rel)
-        pubs_by_n = {os.path.join(root, v): k for k, v in self.PUB_NAMES.items()}
+        pubs_by_n = {}
+        for k, v in self.PUB_NAMES.items():
+            pubs_by_n[os.path.join(root, v)] = k
+            pubs_by_n[os.path.join(root, "elsewhere", "out dir", v)] = k + 10
         img_by_path = {os.path.join(root, v): k for k, v in self.img_paths.items()}
         sig_by_path = {os.path.join(root, v) + ".sig": k for k, v in self.img_paths.items()}
         # the key in the file at the -p path comes first among the candidates
@@ -848,9 +907,8 @@ class Session:
         # line before it
         hashes, cur_img = [], None
         by_name = {}
-        for i, rel in self.img_paths.items():
-            by_name[rel] = i
-            by_name[os.path.join(root, rel)] = i
+        for a, i in zip(img_args, imgs):
+            by_name[a] = i
         for line in out.splitlines():
             m = re.match(r"^Computing hash for '(.*)'\.\.\.\s*$", line)
             if m:
@@ -859,7 +917,7 @@ class Session:
             m = re.match(r"^App hash: ([0-9a-fA-F]{64})\s*$", line)
             if m and cur_img is not None:
                 hashes.append({"img": cur_img, "ok": True, "digest": list(bytes.fromhex(m.group(1)))})
-        run = {"imgs": list(imgs), "pub": {"k": "pub", "n": pubn}, "gens": list(gens), "exit": code,
+        run = {"imgs": list(imgs), "pub": {"k": "pub", "n": pub_id}, "gens": list(gens), "exit": code,
                "files": files, "outleak": leaks((out + "\n" + err).encode(), needles), "hashes": hashes}
         info = {"argv": argv, "stdout": out[-600:], "stderr": err[-300:], "exc": exc, "notes": notes,
                 "hins": hins, "child": child}
@@ -883,14 +941,17 @@ class AuthSession:
 
     OUT_NAMES = {1: "auth.json", 2: os.path.join("out", "signer_auth.json")}
 
-    def __init__(self, root, layouts, contents, pre, rng):
+    def __init__(self, root, layouts, contents, pre, rng, dirs="flat", otherdir=False):
         install_boundary()
         self.root = root
-        os.makedirs(os.path.join(root, "out"), exist_ok=True)
+        # the -o files of a session stay where they are (so that a path given again is the same file);
+        # only the way they are named on the command line changes from one invocation to the next
+        self.out_root = os.path.join(root, "elsewhere", "out dir") if otherdir else root
+        os.makedirs(os.path.join(self.out_root, "out"), exist_ok=True)
         self.contents = list(contents)
-        self.img_paths = {}
+        self.img_paths = image_relpaths(dirs, len(layouts))
         for i, lay in enumerate(layouts, 1):
-            self.img_paths[i] = "app%d.hex" % i
+            os.makedirs(os.path.dirname(os.path.join(root, self.img_paths[i])), exist_ok=True)
             write_hex(lay, os.path.join(root, self.img_paths[i]))
         self.expected = [None] * max(self.contents)
         for i, c in enumerate(self.contents, 1):
@@ -901,25 +962,27 @@ class AuthSession:
                 other = bytes(rng.randrange(256) for _ in range(32))
                 doc = {"version": 1, "signer": {"hash": other.hex(), "iteration": int(st.get("gotiter", 7))},
                        "signatures": list(st.get("signatures", []))}
-                with open(os.path.join(root, self.OUT_NAMES[n]), "w") as f:
+                with open(os.path.join(self.out_root, self.OUT_NAMES[n]), "w") as f:
                     f.write(json.dumps(doc, indent=2) + "\n")
 
-    def step(self, img, iteration, out, relative=True):
+    def step(self, img, iteration, out, relative=True, form=None):
         import signapp
         root = self.root
-
-        def arg(rel):
-            return rel if relative else os.path.join(root, rel)
-        argv = ["signapp.py", "message", "-a", arg(self.img_paths[img]), "-i", str(iteration)]
+        if form is None:
+            form = {"addr": "rel" if relative else "abs", "cwd": "imgdir", "pub": "rel" if relative else "abs"}
+        inv = Invocation(root, form)
+        argv = ["signapp.py", "message", "-a", inv.img_arg(self.img_paths[img], int(iteration)), "-i",
+                str(iteration)]
         if out:
-            argv += ["-o", arg(self.OUT_NAMES[out])]
-        with Patched(argv, root) as p:
+            out_abs = os.path.join(self.out_root, self.OUT_NAMES[out])
+            argv += ["-o", out_abs if inv.form["pub"] == "abs" else os.path.relpath(out_abs, inv.cwd)]
+        with Patched(argv, inv.cwd) as p:
             code, exc = _call_main(signapp)
         text = p.out.getvalue()
         hx, it = None, -1
         if out:
             try:
-                with open(os.path.join(root, self.OUT_NAMES[out])) as f:
+                with open(os.path.join(self.out_root, self.OUT_NAMES[out])) as f:
                     doc = json.load(f)
                 hx, it = doc["signer"]["hash"], doc["signer"]["iteration"]
             except Exception:
